@@ -90,6 +90,10 @@ DYADS = {
     "Ldec": ("{(x*10)+y}", "{(x*10)+y}(p;q)"),      # non-associative
     "Lsnd": ("{y}", "{y}(p;q)"), "Lfst": ("{x}", "{x}(p;q)"),
     "Lnest": ("{(,x),y}", "{(,x),y}(p;q)"),
+    # inline one-operator lambdas with swapped, repeated or single arguments (never the bare operator)
+    "Ssub": ("{y-x}", "{y-x}(p;q)"), "Sdiv": ("{y%x}", "{y%x}(p;q)"), "Sjoin": ("{y,x}", "{y,x}(p;q)"),
+    "Srem": ("{y!x}", "{y!x}(p;q)"), "Spow": ("{y^x}", "{y^x}(p;q)"), "Slt": ("{y<x}", "{y<x}(p;q)"),
+    "Sidiv": ("{y:%x}", "{y:%x}(p;q)"), "Lxx": ("{x-x}", "{x-x}(p;q)"), "Lyy": ("{y-y}", "{y-y}(p;q)"),
     "proj": ("{x+y*z}(;;2)", "pj(p;q)"),
     "named": ("fd", "fd(p;q)"),                    # fd::{x-2*y}
     "nproj": ("pj", "pj(p;q)"),                    # pj::{x+y*z}(;;2)
